@@ -1819,3 +1819,105 @@ fn c12_wide_and_batch_keccak() {
     c12_wide_batch::<KeccakHash<25>>("keccak", &mut bad, &mut cases);
     finish("c12_wide_and_batch_keccak", cases, bad);
 }
+
+// C17: every registered gate / generator type (through a recursive verifier circuit and the gadget zoo), every FriReductionStrategy variant,
+// proofs under mixed FRI arities, compressed proofs
+#[test]
+fn c17_all_gates_and_configs() {
+    use crate::util::serialization::{DefaultGateSerializer, DefaultGeneratorSerializer};
+    use crate::plonk::proof::CompressedProofWithPublicInputs;
+    use std::sync::Arc;
+    let mut bad = Vec::new();
+    let mut cases = 0usize;
+    let gs = DefaultGateSerializer;
+    let ws = DefaultGeneratorSerializer::<PC, D> { _phantom: Default::default() };
+    // (1) FRI configuration codec: every strategy variant, inside common data and inside whole circuits; proofs under those strategies
+    let strategies = vec![
+        ("ConstantArityBits(4,5)", FriReductionStrategy::ConstantArityBits(4, 5)), ("ConstantArityBits(1,1)", FriReductionStrategy::ConstantArityBits(1, 1)),
+        ("Fixed([3,2,1])", FriReductionStrategy::Fixed(vec![3, 2, 1])), ("Fixed([1,3])", FriReductionStrategy::Fixed(vec![1, 3])), ("Fixed([2,2])", FriReductionStrategy::Fixed(vec![2, 2])), ("Fixed([])", FriReductionStrategy::Fixed(vec![])),
+        ("MinSize(None)", FriReductionStrategy::MinSize(None)), ("MinSize(Some(3))", FriReductionStrategy::MinSize(Some(3))),
+    ];
+    for (sname, strat) in strategies {
+        let mut cfg = CircuitConfig::standard_recursion_config();
+        cfg.fri_config.reduction_strategy = strat; cfg.fri_config.num_query_rounds = 12; cfg.security_bits = 40; cfg.fri_config.proof_of_work_bits = 4;
+        let built = catch_unwind(AssertUnwindSafe(|| circuit_rows(cfg, 1 << 7, 9, false, false)));
+        let Ok((data, proof)) = built else { continue; };   // a strategy the prover itself refuses for this size is not a case
+        cases += 1;
+        if data.verify(proof.clone()).is_err() { bad.push(format!("{sname}: honest proof rejected")); continue; }
+        cases += 1;
+        match catch_unwind(AssertUnwindSafe(|| ProofWithPublicInputs::<F, PC, D>::from_bytes(proof.to_bytes(), &data.common))) { Ok(Ok(p2)) => if p2 != proof { bad.push(format!("{sname}: proof bytes round trip differs")) }, Ok(Err(_)) => bad.push(format!("{sname}: proof from_bytes fails on an encoded valid proof")), Err(_) => bad.push(format!("{sname}: proof from_bytes PANICKED")) }
+        cases += 1;
+        match catch_unwind(AssertUnwindSafe(|| data.compress(proof.clone()))) {
+            Ok(Ok(comp)) => {
+                match catch_unwind(AssertUnwindSafe(|| CompressedProofWithPublicInputs::<F, PC, D>::from_bytes(comp.to_bytes(), &data.common))) { Ok(Ok(c2)) => if c2 != comp { bad.push(format!("{sname}: compressed proof bytes round trip differs")) }, Ok(Err(_)) => bad.push(format!("{sname}: compressed from_bytes fails on an encoded valid proof")), Err(_) => bad.push(format!("{sname}: compressed from_bytes PANICKED")) }
+                cases += 1;
+                match catch_unwind(AssertUnwindSafe(|| data.decompress(comp.clone()))) { Ok(Ok(p3)) => if p3 != proof { bad.push(format!("{sname}: decompress(compress(p)) != p")) }, _ => bad.push(format!("{sname}: decompress(compress(p)) fails")) }
+                cases += 1;
+                if !matches!(catch_unwind(AssertUnwindSafe(|| data.verify_compressed(comp))), Ok(Ok(()))) { bad.push(format!("{sname}: compressed form of an accepted proof is not accepted")); }
+            }
+            _ => bad.push(format!("{sname}: compress failed")),
+        }
+        cases += 2;
+        match catch_unwind(AssertUnwindSafe(|| data.common.to_bytes(&gs).ok().and_then(|b| crate::plonk::circuit_data::CommonCircuitData::<F, D>::from_bytes(b, &gs).ok()))) { Ok(Some(c2)) => if c2 != data.common { bad.push(format!("{sname}: common data bytes round trip differs")) }, _ => bad.push(format!("{sname}: common data byte round trip fails")) }
+        match catch_unwind(AssertUnwindSafe(|| data.to_bytes(&gs, &ws).ok().and_then(|b| CircuitData::<F, PC, D>::from_bytes(&b, &gs, &ws).ok()))) { Ok(Some(d2)) => if d2 != data { bad.push(format!("{sname}: circuit data bytes round trip differs")) }, _ => bad.push(format!("{sname}: circuit data byte round trip fails")) }
+    }
+    // (2) a circuit that uses the gadget zoo, and a recursive verifier of it: between them every gate and generator type of the default registries
+    let inner = {
+        let mut b = CircuitBuilder::<F, D>::new(CircuitConfig::standard_recursion_config());
+        let xs = b.add_virtual_targets(6);
+        b.register_public_input(xs[0]);
+        let h = b.hash_n_to_hash_no_pad::<PoseidonHash>(xs.clone()); b.register_public_inputs(&h.elements);
+        let e = b.exp_u64(xs[1], 11); b.register_public_input(e);
+        let bits = b.split_le(xs[2], 5); let e2 = b.exp_from_bits(xs[3], bits.iter()); b.register_public_input(e2);
+        b.range_check(xs[2], 5);
+        let table: Vec<(u16, u16)> = (0..32u16).map(|i| (i, i * 3 + 1)).collect();
+        let ti = b.add_lookup_table_from_pairs(Arc::new(table)); let lo = b.add_lookup_from_index(xs[2], ti); b.register_public_input(lo);
+        let v: Vec<_> = (0..8).map(|k| b.constant(F::from_canonical_u64(50 + k))).collect(); let ra = b.random_access(xs[4], v); b.register_public_input(ra);
+        let exts: Vec<_> = (0..70).map(|k| { let t = b.constant(F::from_canonical_u64(k + 2)); b.convert_to_ext(t) }).collect();
+        let alpha = b.convert_to_ext(xs[5]);
+        let mut rf = crate::util::reducing::ReducingFactorTarget::new(alpha); let red = rf.reduce(&exts, &mut b); b.register_public_inputs(&red.0);
+        let bases: Vec<_> = (0..40).map(|k| b.constant(F::from_canonical_u64(k + 7))).collect();
+        let mut rf2 = crate::util::reducing::ReducingFactorTarget::new(alpha); let red2 = rf2.reduce_base(&bases, &mut b); b.register_public_inputs(&red2.0);
+        let m = b.mul_extension(red, red2); let a = b.add_extension(m, alpha); b.register_public_inputs(&a.0);
+        let data = b.build::<PC>();
+        let mut pw = PartialWitness::new();
+        for (k, &t) in xs.iter().enumerate() { pw.set_target(t, F::from_canonical_u64([9u64, 3, 21, 5, 6, 77][k])).unwrap(); }
+        (data, pw)
+    };
+    let (inner_data, inner_pw) = inner;
+    let inner_proof = match catch_unwind(AssertUnwindSafe(|| inner_data.prove(inner_pw.clone()))) { Ok(Ok(p)) => Some(p), _ => { bad.push("gadget circuit: honest proving failed".into()); None } };
+    let roundtrip = |tag: &str, data: &CircuitData<F, PC, D>, pw: PartialWitness<F>, proof: &ProofWithPublicInputs<F, PC, D>, bad: &mut Vec<String>, cases: &mut usize| {
+        *cases += 1;
+        let restored = match catch_unwind(AssertUnwindSafe(|| data.to_bytes(&gs, &ws).ok().and_then(|b| CircuitData::<F, PC, D>::from_bytes(&b, &gs, &ws).ok()))) { Ok(Some(d)) => d, _ => { bad.push(format!("{tag}: circuit byte round trip fails")); return; } };
+        if &restored != data { bad.push(format!("{tag}: restored circuit data differ")); }
+        if restored.verifier_only.circuit_digest != data.verifier_only.circuit_digest { bad.push(format!("{tag}: restored circuit has another digest")); }
+        *cases += 2;
+        if restored.verify(proof.clone()).is_err() { bad.push(format!("{tag}: restored circuit rejects the original circuit's proof")); }
+        match catch_unwind(AssertUnwindSafe(|| restored.prove(pw))) {
+            Ok(Ok(p2)) => { if data.verify(p2.clone()).is_err() { bad.push(format!("{tag}: original circuit rejects the restored circuit's proof")); } if p2.public_inputs != proof.public_inputs { bad.push(format!("{tag}: restored circuit computes different public inputs")); } }
+            Ok(Err(e)) => bad.push(format!("{tag}: restored circuit fails to prove: {e}")),
+            Err(_) => bad.push(format!("{tag}: restored circuit PANICKED while proving")),
+        }
+        // verifier data as a separate artefact
+        *cases += 1;
+        match catch_unwind(AssertUnwindSafe(|| data.verifier_data().to_bytes(&gs).ok().and_then(|b| crate::plonk::circuit_data::VerifierCircuitData::<F, PC, D>::from_bytes(b, &gs).ok()))) {
+            Ok(Some(v2)) => { if v2.verify(proof.clone()).is_err() { bad.push(format!("{tag}: restored verifier data reject the proof")); } }, _ => bad.push(format!("{tag}: verifier data byte round trip fails")) }
+    };
+    if let Some(ip) = inner_proof.as_ref() {
+        roundtrip("gadget circuit", &inner_data, inner_pw.clone(), ip, &mut bad, &mut cases);
+        // recursive verifier of the gadget circuit
+        let mut b = CircuitBuilder::<F, D>::new(CircuitConfig::standard_recursion_config());
+        let pt = b.add_virtual_proof_with_pis(&inner_data.common);
+        let vd = b.add_virtual_verifier_data(inner_data.common.config.fri_config.cap_height);
+        b.verify_proof::<PC>(&pt, &vd, &inner_data.common);
+        b.register_public_inputs(&pt.public_inputs);
+        let outer = b.build::<PC>();
+        let mut pw = PartialWitness::new();
+        pw.set_proof_with_pis_target(&pt, ip).unwrap(); pw.set_verifier_data_target(&vd, &inner_data.verifier_only).unwrap();
+        match catch_unwind(AssertUnwindSafe(|| outer.prove(pw.clone()))) {
+            Ok(Ok(op)) => roundtrip("recursive verifier circuit", &outer, pw, &op, &mut bad, &mut cases),
+            _ => bad.push("recursive verifier circuit: honest proving failed".into()),
+        }
+    }
+    finish("c17_all_gates_and_configs", cases, bad);
+}
